@@ -16,13 +16,14 @@ META = {
         'Parser.ast (rapid type analysis through the token hierarchy, the '
         'builder and what they reach) every exception class that is '
         'explicitly raised - or raised by a short table of implicit raisers '
-        '(eval/exec, schedula add_function/add_data id clashes, table lookups '
+        ' (eval/exec, schedula add_function/add_data id clashes, table lookups '
         'whose key language is not contained in the table) - and not handled '
         'on the way out belongs to the FormulaError family; (reject) the '
         'characters the operator tokenizer folds into signs are only + and -; '
-        '(arity) operand underflow and unmatched filters are turned into '
+        ' (arity) operand underflow and unmatched filters are turned into '
         'FormulaError; (num) the numeric-literal regex language is contained '
-        'in the domain of the conversion Number.compile applies.'),
+        'in the domain of the conversion Number.compile applies.'
+        ' (adjacent) both adjacent-operand guards test the whole Operand family.'),
     'not_decided': (
         'Termination, rejection of every malformed string, and exceptions '
         'raised implicitly by library code outside the implicit-raiser table.'),
